@@ -888,7 +888,7 @@ class Slices(Stream):
         self.cache = {}       # case hash -> observation computed by a worker process
 
     def gen(self, rng, tier):
-        n = int(os.environ.get('C11_N') or (50 if tier == 'quick' else 260))
+        n = int(os.environ.get('C11_N') or (40 if tier == 'quick' else 180))
         out = []
         for i in range(n):
             d = gen_desc(rng, big=(tier == 'thorough' and i % 5 == 0), mirror_heavy=(i % 3 == 0))
